@@ -165,10 +165,16 @@ class XorEncodedFile(io.RawIOBase):
         return self.fh.tell() - (self.nonce_offset + 8)
 
     def seek(self, offset, whence=io.SEEK_SET):
+        start = self.nonce_offset + 8
         if whence == io.SEEK_SET:
-            self.fh.seek(offset + self.nonce_offset + 8, whence)
+            if offset < 0:
+                raise ValueError(f"negative seek value {offset}")
+            self.fh.seek(offset + start, whence)
         else:
             self.fh.seek(offset, whence)
+            if self.fh.tell() < start:
+                # the decoded data starts here, what lies before it (stub, nonce, size) is not part of this file
+                self.fh.seek(start)
         # like any file object, return the new position (in the decoded data, not in the underlying file)
         return self.tell()
 
